@@ -255,6 +255,12 @@ class SReal(Proxy):
     def floor(self):
         return SInt(z3.ToInt(self.t))
 
+    def __floor__(self):           # math.floor(x) delegates here
+        return SInt(z3.ToInt(self.t))
+
+    def __ceil__(self):
+        return SInt(-z3.ToInt(-self.t))
+
     def __repr__(self):
         return "SReal(%s)" % self.t
 
